@@ -9,3 +9,6 @@ trap 'git -C /repo worktree remove --force "$wt" >/dev/null 2>&1 || true' EXIT
 mkdir -p "$wt/test/test_files/tmp"
 cd "$wt" && env -u FORMULAS_VERIF PYTHONPATH="$wt" /venv/bin/python -m pytest -q -p no:cacheprovider --timeout=900 -n 6 test > "$out" 2>&1 || true
 tail -3 "$out"
+# test_excel_model fails on the pinned tree already (Errors(2): LOOKUP!AL19, LOOKUP!Y20);
+# any other entry in its list is a regression hidden behind that failure.
+grep -A12 "Errors(" "$out" | grep -E "Errors\(|: \[TEST" | sed 's/object at 0x[0-9a-f]*//' | head -14
